@@ -1,12 +1,246 @@
-//! C02: not yet implemented
+//! C02: extraction from a SqPack dat file returns the packed bytes.
+//!
+//! `gen` writes abstract entries (content split into blocks, each stored raw or as a raw-deflate
+//! stream produced here with zlib's own `deflate`); the Lean driver packs them with
+//! `Spec/SqPackData` into a dat file (hex in `input`); `run` writes that file to a scratch
+//! directory and calls `SqPackData::read_from_offset`.
 #![allow(unused)]
 use crate::util::*;
+use libz_rs_sys::*;
+use physis::sqpack::SqPackData;
 use std::io::Write;
 
-pub fn generate(thorough: bool, seed: u64, out: &mut dyn Write) {}
+/// raw deflate (window bits -15) with the given level / strategy
+fn deflate_raw(data: &[u8], level: i32, strategy: i32) -> Vec<u8> {
+    unsafe {
+        let mut strm: z_stream = std::mem::zeroed();
+        let ret = deflateInit2_(
+            &mut strm,
+            level,
+            Z_DEFLATED,
+            -15,
+            8,
+            strategy,
+            zlibVersion(),
+            core::mem::size_of::<z_stream>() as i32,
+        );
+        assert_eq!(ret, Z_OK);
+        let mut out = vec![0u8; data.len() + data.len() / 8 + 256];
+        strm.next_in = data.as_ptr() as *mut u8;
+        strm.avail_in = data.len() as u32;
+        strm.next_out = out.as_mut_ptr();
+        strm.avail_out = out.len() as u32;
+        let ret = deflate(&mut strm, Z_FINISH);
+        assert_eq!(ret, Z_STREAM_END);
+        out.truncate(strm.total_out as usize);
+        deflateEnd(&mut strm);
+        out
+    }
+}
+
+/// content of `n` bytes: incompressible, repetitive, text-like or constant
+fn content(rng: &mut Rng, n: usize) -> Vec<u8> {
+    match rng.below(5) {
+        0 => rng.bytes(n),
+        1 => vec![rng.below(256) as u8; n],
+        2 => {
+            let pat_len = rng.range(1, 40) as usize;
+            let pat = rng.bytes(pat_len);
+            (0..n).map(|i| pat[i % pat.len()]).collect()
+        }
+        3 => (0..n).map(|_| b"etaoin shrdlu\n"[rng.below(14) as usize]).collect(),
+        _ => {
+            let mut v = rng.bytes(n);
+            for i in 0..n {
+                if i % 7 < 4 {
+                    v[i] = 0;
+                }
+            }
+            v
+        }
+    }
+}
+
+fn block_str(rng: &mut Rng, data: &[u8]) -> String {
+    // raw, or deflated as a stored / fixed-Huffman / dynamic-Huffman stream
+    let mode = if data.is_empty() { 0 } else { rng.below(5) };
+    let c = match mode {
+        0 => return format!("r{}", hex(data)),
+        1 => deflate_raw(data, 0, Z_DEFAULT_STRATEGY),
+        2 => deflate_raw(data, 6, Z_FIXED),
+        3 => deflate_raw(data, 9, Z_DEFAULT_STRATEGY),
+        _ => deflate_raw(data, 1, Z_DEFAULT_STRATEGY),
+    };
+    if c.len() >= 32000 {
+        return format!("r{}", hex(data));
+    }
+    format!("d{}/{}", hex(data), hex(&c))
+}
+
+/// split `total` bytes into blocks of 1..=max bytes
+fn split(rng: &mut Rng, total: usize, max_blocks: usize) -> Vec<usize> {
+    let mut sizes = vec![];
+    let mut left = total;
+    while left > 0 {
+        let cap = 16000.min(left);
+        let mut s = match rng.below(6) {
+            0 => 1,
+            1 => cap,
+            2 => rng.range(1, 16.min(cap as u64)) as usize,
+            _ => rng.range(1, cap as u64) as usize,
+        };
+        if sizes.len() + 1 >= max_blocks {
+            s = cap;
+        }
+        sizes.push(s);
+        left -= s;
+    }
+    sizes
+}
+
+fn blocks_of(rng: &mut Rng, total: usize, max_blocks: usize) -> String {
+    let data = content(rng, total);
+    let mut pos = 0;
+    let mut v = vec![];
+    for s in split(rng, total, max_blocks) {
+        v.push(block_str(rng, &data[pos..pos + s]));
+        pos += s;
+    }
+    if v.is_empty() { "-".into() } else { v.join(";") }
+}
+
+fn total_len(rng: &mut Rng, big: usize) -> usize {
+    (match rng.below(10) {
+        0 => rng.below(4),
+        1 => rng.range(1, 130),
+        2 => *rng.pick(&[111u64, 112, 113, 127, 128, 129, 15999, 16000, 16001, 32000]),
+        3..=6 => rng.range(100, 5000),
+        7 | 8 => rng.range(5000, 40000),
+        _ => rng.range(40000.min(big as u64 / 2), big as u64),
+    }) as usize
+}
+
+fn place(rng: &mut Rng) -> (u64, u64) {
+    let units = match rng.below(4) {
+        0 => 0,
+        1 => rng.range(1, 4),
+        _ => rng.range(1, 300),
+    };
+    let suffix = match rng.below(3) {
+        0 => 0,
+        1 => rng.range(1, 8),
+        _ => rng.range(8, 600),
+    };
+    (units, suffix)
+}
+
+pub fn generate(thorough: bool, seed: u64, out: &mut dyn Write) {
+    let mut rng = Rng::new(seed, "C02");
+    let big = if thorough { 1 << 20 } else { 1 << 16 };
+    // single-block sweep: every length 0..=40 raw, 1..=40 in each deflate mode, at the file end
+    for n in 0..=40usize {
+        let d = content(&mut rng, n);
+        writeln!(out, "std {} 0 r{}", n % 3, hex(&d)).unwrap();
+        if n > 0 {
+            for (lvl, st) in [(0, Z_DEFAULT_STRATEGY), (6, Z_FIXED), (9, Z_DEFAULT_STRATEGY)] {
+                let c = deflate_raw(&d, lvl, st);
+                writeln!(out, "std 1 {} d{}/{}", n % 2, hex(&d), hex(&c)).unwrap();
+            }
+        }
+    }
+    writeln!(out, "std 0 0 -").unwrap();
+    let n = if thorough { 12000 } else { 180 };
+    for i in 0..n {
+        let (units, suffix) = place(&mut rng);
+        match i % 3 {
+            0 => {
+                let total = total_len(&mut rng, big);
+                let max_blocks = if total > 100000 { 200 } else { 40 };
+                let b = blocks_of(&mut rng, total, max_blocks);
+                writeln!(out, "std {} {} {}", units, suffix, b).unwrap();
+            }
+            1 => {
+                let hdr_len = match rng.below(4) {
+                    0 => 80,
+                    1 => 0,
+                    _ => rng.range(1, 200),
+                } as usize;
+                let hdr = rng.bytes(hdr_len);
+                let n_mips = rng.range(1, 13) as usize;
+                let mut mips = vec![];
+                let mut size = total_len(&mut rng, big / 2).max(1);
+                for m in 0..n_mips {
+                    if m > 0 && rng.chance(1, 12) {
+                        mips.push("-".to_string());
+                        continue;
+                    }
+                    mips.push(blocks_of(&mut rng, size.max(1), 6));
+                    size = (size / 4).max(1);
+                }
+                writeln!(out, "tex {} {} {} {}", units, suffix, hex(&hdr), mips.join("|")).unwrap();
+            }
+            _ => {
+                let lods = rng.range(1, 3);
+                let mut secs = vec![];
+                let with_edge = rng.chance(1, 3);
+                for s in 0..11usize {
+                    // stack runtime v0 e0 i0 v1 e1 i1 v2 e2 i2
+                    let lod = if s < 2 { 0 } else { (s - 2) / 3 };
+                    let is_edge = s >= 2 && (s - 2) % 3 == 1;
+                    let present = if is_edge {
+                        with_edge && (lod as u64) < lods && rng.chance(2, 3)
+                    } else {
+                        s < 2 && rng.chance(9, 10) || s >= 2 && (lod as u64) < lods && rng.chance(5, 6) || rng.chance(1, 10)
+                    };
+                    if !present {
+                        secs.push("-".to_string());
+                        continue;
+                    }
+                    let nb = rng.range(1, 4) as usize;
+                    let total = match rng.below(4) {
+                        0 => rng.range(nb as u64, 64),
+                        1 => rng.range(64, 4000),
+                        _ => rng.range(nb as u64, (big / 16) as u64),
+                    } as usize;
+                    secs.push(blocks_of(&mut rng, total.max(nb), nb));
+                }
+                writeln!(
+                    out,
+                    "mdl {} {} {},{},{},{},{},{} {}",
+                    units,
+                    suffix,
+                    rng.u32_edge(),
+                    rng.below(65536),
+                    rng.below(65536),
+                    lods,
+                    rng.below(2),
+                    rng.below(2),
+                    secs.join("|")
+                )
+                .unwrap();
+            }
+        }
+    }
+}
 
 pub fn run(case: &str, input: &str) -> String {
-    "unimplemented".to_string()
+    let f: Vec<&str> = input.split(' ').collect();
+    if f.len() != 2 {
+        return "bad-case".into();
+    }
+    let Ok(offset) = f[0].parse::<u64>() else { return "bad-case".into() };
+    let Some(file) = unhex(f[1]) else { return "bad-case".into() };
+    let tmp = TempDir::new("c02");
+    let path = tmp.path().join("000000.win32.dat0");
+    std::fs::write(&path, &file).unwrap();
+    let p = path.to_str().unwrap().to_string();
+    guarded(move || {
+        let Some(mut dat) = SqPackData::from_existing(&p) else { return "nofile".into() };
+        match dat.read_from_offset(offset) {
+            Some(d) => hex(&d),
+            None => "none".into(),
+        }
+    })
 }
 
 pub fn dump(out: &mut dyn Write) {}
